@@ -4,6 +4,7 @@ CFG = {'module': 'Dnp3.Props.C12',
  'gen': [],
  'engines': ['outstation', 'outstationdb'],
  'monitors': ['solicited_uns_clear',
+              'control_request_refused_as_a_whole',
               'solicited_correlated',
               'series_consecutive',
               'unsolicited_shape',
